@@ -43,9 +43,11 @@ typedef struct {
 
     /* Current block state */
     int64_t min_delta;
-    uint8_t bit_widths[DELTA_MINI_BLOCKS];
+    const uint8_t* bit_widths;      /* One per mini-block, in the input */
     int32_t current_mini_block;
-    int32_t values_in_mini_block;
+    int32_t values_in_mini_block;   /* Values unpacked into the buffer */
+    int32_t mini_block_left;        /* Values of the mini-block still packed */
+    int32_t mini_block_width;
 
     /* Mini-block buffer */
     int64_t mini_block_values[DELTA_MINI_BLOCK_SIZE];
@@ -127,25 +129,21 @@ static carquet_status_t delta_decoder_init(delta_decoder_t* dec,
 
     /* Block size */
     bytes = read_uleb128(data + dec->pos, size - dec->pos, &val);
-    if (bytes == 0) return CARQUET_ERROR_DECODE;
+    if (bytes == 0 || val > INT32_MAX) return CARQUET_ERROR_DECODE;
     dec->block_size = (int32_t)val;
     dec->pos += bytes;
 
     /* Mini-blocks per block */
     bytes = read_uleb128(data + dec->pos, size - dec->pos, &val);
-    if (bytes == 0) return CARQUET_ERROR_DECODE;
+    if (bytes == 0 || val > INT32_MAX) return CARQUET_ERROR_DECODE;
     dec->mini_blocks_per_block = (int32_t)val;
     dec->pos += bytes;
 
-    /* Validate header values to prevent buffer overflows */
-    if (dec->mini_blocks_per_block <= 0 || dec->mini_blocks_per_block > DELTA_MINI_BLOCKS) {
-        return CARQUET_ERROR_DECODE;
-    }
-    if (dec->block_size <= 0 || dec->block_size > DELTA_BLOCK_SIZE) {
-        return CARQUET_ERROR_DECODE;
-    }
-    /* mini_block_size = block_size / mini_blocks_per_block must fit in buffer */
-    if (dec->block_size / dec->mini_blocks_per_block > DELTA_MINI_BLOCK_SIZE) {
+    /* Any block layout is legal (the format asks for a block size that is a
+     * multiple of 128 and mini-blocks that are a multiple of 32 values). The
+     * widths are read in place and a mini-block is unpacked 32 values at a
+     * time, so neither number is tied to a buffer size. */
+    if (val == 0 || val > (uint64_t)dec->block_size) {
         return CARQUET_ERROR_DECODE;
     }
 
@@ -181,69 +179,80 @@ static carquet_status_t delta_decoder_read_block(delta_decoder_t* dec) {
     dec->pos += bytes;
 
     /* Read bit widths for each mini-block */
-    if (dec->pos + dec->mini_blocks_per_block > dec->size) {
+    if ((size_t)dec->mini_blocks_per_block > dec->size - dec->pos) {
         return CARQUET_ERROR_DECODE;
     }
-    memcpy(dec->bit_widths, dec->data + dec->pos, dec->mini_blocks_per_block);
-    dec->pos += dec->mini_blocks_per_block;
+    dec->bit_widths = dec->data + dec->pos;
+    dec->pos += (size_t)dec->mini_blocks_per_block;
 
     dec->current_mini_block = 0;
     return CARQUET_OK;
 }
 
 static carquet_status_t delta_decoder_read_mini_block(delta_decoder_t* dec) {
-    if (dec->current_mini_block >= dec->mini_blocks_per_block) {
-        carquet_status_t status = delta_decoder_read_block(dec);
-        if (status != CARQUET_OK) return status;
+    /* Start the next mini-block once the current one is used up */
+    if (dec->mini_block_left <= 0) {
+        if (dec->current_mini_block >= dec->mini_blocks_per_block) {
+            carquet_status_t status = delta_decoder_read_block(dec);
+            if (status != CARQUET_OK) return status;
+        }
+
+        dec->mini_block_width = dec->bit_widths[dec->current_mini_block];
+        dec->mini_block_left = dec->block_size / dec->mini_blocks_per_block;
+        dec->current_mini_block++;
+
+        if (dec->mini_block_width > 64) {
+            return CARQUET_ERROR_DECODE;
+        }
     }
 
-    int bit_width = dec->bit_widths[dec->current_mini_block];
-    int mini_block_size = dec->block_size / dec->mini_blocks_per_block;
+    /* Unpack its next values: 32 values of any width end on a byte boundary */
+    int bit_width = dec->mini_block_width;
+    int count = dec->mini_block_left < DELTA_MINI_BLOCK_SIZE
+                    ? dec->mini_block_left : DELTA_MINI_BLOCK_SIZE;
 
     if (bit_width == 0) {
         /* All deltas are min_delta */
-        for (int i = 0; i < mini_block_size; i++) {
+        for (int i = 0; i < count; i++) {
             dec->mini_block_values[i] = dec->min_delta;
         }
     } else if (bit_width <= 32) {
         /* Unpack bit-packed deltas (32-bit) */
-        size_t packed_size = (mini_block_size * bit_width + 7) / 8;
-        if (dec->pos + packed_size > dec->size) {
+        size_t packed_size = ((size_t)count * (size_t)bit_width + 7) / 8;
+        if (packed_size > dec->size - dec->pos) {
             return CARQUET_ERROR_DECODE;
         }
 
         uint32_t unpacked[DELTA_MINI_BLOCK_SIZE];
-        carquet_bitunpack_32(dec->data + dec->pos, mini_block_size, bit_width, unpacked);
+        carquet_bitunpack_32(dec->data + dec->pos, count, bit_width, unpacked);
 
-        for (int i = 0; i < mini_block_size; i++) {
+        for (int i = 0; i < count; i++) {
             /* Use unsigned addition to avoid overflow UB */
             dec->mini_block_values[i] = (int64_t)((uint64_t)dec->min_delta + (uint64_t)unpacked[i]);
         }
 
         dec->pos += packed_size;
-    } else if (bit_width <= 64) {
+    } else {
         /* Widths 33..64: bit-packed like every other width */
-        size_t packed_size = ((size_t)mini_block_size * (size_t)bit_width + 7) / 8;
-        if (dec->pos + packed_size > dec->size) {
+        size_t packed_size = ((size_t)count * (size_t)bit_width + 7) / 8;
+        if (packed_size > dec->size - dec->pos) {
             return CARQUET_ERROR_DECODE;
         }
 
         uint64_t unpacked64[DELTA_MINI_BLOCK_SIZE];
-        delta_unpack64(dec->data + dec->pos, mini_block_size, bit_width, unpacked64);
+        delta_unpack64(dec->data + dec->pos, count, bit_width, unpacked64);
 
-        for (int i = 0; i < mini_block_size; i++) {
+        for (int i = 0; i < count; i++) {
             /* Use unsigned addition to avoid overflow UB */
             dec->mini_block_values[i] = (int64_t)((uint64_t)dec->min_delta + unpacked64[i]);
         }
 
         dec->pos += packed_size;
-    } else {
-        return CARQUET_ERROR_DECODE;
     }
 
-    dec->current_mini_block++;
+    dec->mini_block_left -= count;
     dec->mini_block_pos = 0;
-    dec->values_in_mini_block = mini_block_size;
+    dec->values_in_mini_block = count;
 
     return CARQUET_OK;
 }
@@ -275,6 +284,20 @@ static carquet_status_t delta_decoder_next(delta_decoder_t* dec, int64_t* value)
     return CARQUET_OK;
 }
 
+/* A mini-block is stored whole even when only its first values are wanted:
+ * step over what was not unpacked so that the position is the end of the data */
+static carquet_status_t delta_decoder_finish(delta_decoder_t* dec) {
+    if (dec->mini_block_left > 0) {
+        size_t rest = ((size_t)dec->mini_block_left * (size_t)dec->mini_block_width + 7) / 8;
+        if (rest > dec->size - dec->pos) {
+            return CARQUET_ERROR_DECODE;
+        }
+        dec->pos += rest;
+        dec->mini_block_left = 0;
+    }
+    return CARQUET_OK;
+}
+
 /* ============================================================================
  * Public API
  * ============================================================================
@@ -302,6 +325,11 @@ carquet_status_t carquet_delta_decode_int32(
         values[i] = (int32_t)val;
     }
 
+    status = delta_decoder_finish(&dec);
+    if (status != CARQUET_OK) {
+        return status;
+    }
+
     if (bytes_consumed) {
         *bytes_consumed = dec.pos;
     }
@@ -327,6 +355,11 @@ carquet_status_t carquet_delta_decode_int64(
         if (status != CARQUET_OK) {
             return status;
         }
+    }
+
+    status = delta_decoder_finish(&dec);
+    if (status != CARQUET_OK) {
+        return status;
     }
 
     if (bytes_consumed) {
